@@ -177,6 +177,19 @@ def cmd_check(prop, tier):
             'shrink_executions': calls,
             'readable': eng.sample_repr(small)})
         ok = verify_replay(path, prop, sig)
+        if not ok and small is not case:
+            # the shrunk case depends on something the shrinker dropped
+            # (e.g. state left behind by an earlier step of the same run):
+            # fall back to the complete original case
+            res0 = eng.execute(case)
+            rp = json.load(open(path))
+            rp.update(case=case, violation=res0['violation'],
+                      size_after_shrinking=n_before,
+                      shrink_note='shrunk case did not reproduce in a '
+                      'fresh interpreter; this is the unshrunk case',
+                      readable=eng.sample_repr(case))
+            core.write_json(path, rp)
+            ok = verify_replay(path, prop, sig)
         reported.append((sig, path, ok, len(by_sig[sig])))
 
     # ---- determinism + fidelity (harness self-tests)
@@ -405,6 +418,9 @@ def main(argv):
         if cmd == 'selftest':
             from sim import selftest
             return selftest.main(argv[1:])
+        if cmd == 'c12pair':
+            from sim import multi_engine
+            return multi_engine.pair_main(argv[1])
         if cmd == 'seeded':
             from sim import seeded
             return seeded.main(argv[1:])
